@@ -396,8 +396,9 @@ class Model:
                 if ret == "reject":
                     ci += 1
                     if ci >= len(cands):
-                        # cannot happen with a default rule: it never rejects
-                        self.emit(["F", "other"])
+                        # every rule rejected: only possible without the default rule (-s),
+                        # whose place is taken by the documented "scanner jammed" abort
+                        self.emit(["F", "jam"])
                         raise Stop()
                     continue
                 break
@@ -723,6 +724,9 @@ class Model:
             self.f("restart")
         elif k == "begin":
             self.sc = op[1]
+            self.emit(["B", str(self.sc)])
+        elif k == "begin_param":     # start condition taken from the input pack
+            self.sc = int(self.case.get("param", 0))
             self.emit(["B", str(self.sc)])
         elif k == "create":          # slot = yy_create_buffer(source, size)
             self.bufs[op[1]] = MBuf(self.sources[op[2]], op[2])
